@@ -223,3 +223,7 @@ def run(ctx, rep):
     rep.floor("PRIMBOUND dereference sites in Reach(decode)", n, tab["primbound_floor"])
     constdrop(ctx, rep, tab)
     noabort(ctx, rep, tab)
+    # sanity checks whose removal is a memory-safety defect two functions later: the Edgebreaker decoder's
+    # one-decoder-per-connectivity-data rule (shared rule with C03)
+    from .C03 import claimonce
+    claimonce(ctx, rep, eng, load_table("c03.json"))
